@@ -92,7 +92,7 @@ func BuildViews(r *simrt.Run, calls []*Call) map[int]*CallView {
 			delete(open, e.Task)
 			continue
 		}
-		if e.Kind < EvS || e.Kind > EvObj {
+		if !IsRuleEvent(e.Kind) {
 			continue
 		}
 		v := views[int(e.A)]
